@@ -41,6 +41,12 @@ def lin(f, e, p=None, depth=0):
             if vals and all(v is not None and v == vals[0] for v in vals):
                 return vals[0]
         return TOP
+    if k == 'MemberExpr' and st.get('mk') == 'field':
+        base = f.s(f.strip_casts(st['ch'][0])) if st.get('ch') else None
+        if base is None or base['k'] == 'CXXThisExpr':
+            ty = st.get('ct') or st.get('t') or ''
+            return Ptr('this.' + st['n'], Aff(0)) if '*' in ty else Aff.sym('this.' + st['n'])
+        return TOP
     if k == 'BinaryOperator' and st.get('op') in ('+', '-'):
         a, b = lin(f, st['ch'][0], p, depth + 1), lin(f, st['ch'][1], p, depth + 1)
         if a is None or b is None:
@@ -55,3 +61,46 @@ def lin(f, e, p=None, depth=0):
             return a.off - b.off
         return TOP
     return TOP
+
+
+def cond_fact(f, cond, k, p=None):
+    """affine facts g >= 0 established on successor edge k of comparison `cond` (operands evaluated at the condition)"""
+    cs = f.s(f.strip_casts(cond))
+    if not cs or cs['k'] != 'BinaryOperator' or cs.get('op') not in ('<', '<=', '>', '>=', '==', '!='):
+        return []
+    cp = f.cfg.point_of(cond) if p is None else p
+    a, b = lin(f, cs['ch'][0], cp), lin(f, cs['ch'][1], cp)
+    if not isinstance(a, Aff) or not isinstance(b, Aff):
+        return []
+    op = cs['op']
+    if k == 1:
+        op = {'<': '>=', '<=': '>', '>': '<=', '>=': '<', '==': '!=', '!=': '=='}[op]
+    return {'>=': [a - b], '>': [a - b - Aff(1)], '<=': [b - a], '<': [b - a - Aff(1)], '==': [a - b, b - a], '!=': []}[op]
+
+
+def value_classes(f, e, p):
+    """the value of expression e at point p as a list of (form, facts): when e is a local with several reaching definitions, one
+    class per definition with the guards that hold on exactly the paths along which that definition reaches p
+    (ival.def_guards) plus the guards dominating p.  Bounded disjunction over reaching definitions; no path enumeration."""
+    from . import ival
+    base_facts = []
+    for cond, k, b in f.cfg.controlling_branches(p):
+        base_facts += cond_fact(f, cond, k)
+    x = f.s(f.strip_casts(e))
+    if x is not None and x['k'] == 'DeclRefExpr' and x.get('dk') == 'Var' and not x.get('gl'):
+        defs = rd.local_defs(f, x['d'])
+        r = sorted(rd.reaching(f, x['d'], p))
+        if len(r) > 1:
+            out = []
+            for i in r:
+                d = defs[i]
+                if d['kind'] not in ('init', '=') or d['rhs'] is None or d['point'] is None:
+                    return [(TOP, base_facts)]
+                facts = list(base_facts)
+                for cond, k in ival.def_guards(f, x['d'], i, p):
+                    facts += cond_fact(f, cond, k)
+                for cond, k, b in f.cfg.controlling_branches(d['point']):      # what held when the definition executed
+                    facts += cond_fact(f, cond, k)
+                out.append((lin(f, d['rhs'], d['point']), facts))
+            return out
+    return [(lin(f, e, p), base_facts)]
